@@ -175,6 +175,18 @@ CHECKS["C02"] = dict(
          "after the pre-check runs inside sympy.linsolve and the PuLP/CBC subprocess; r+p <= 4 species, <= 3 composition keys",
     technique=Z, ref="DESIGN.md section 5 C02")
 
+CHECKS["C11"] = dict(
+    engine="Z", category="other",
+    text="bounded symbolic verification: n*e1 + m*e2, n*e1 - e2, (n*e1 + e2) - m*e3, e*n, -e are executed with the real Equilibrium "
+         "operators on symbolic integer multipliers (-3..3) and symbolic coefficients (1..3) for all ordered pairs of 7 operand shapes "
+         "(incl. a species on both sides of an operand); the constant is a value type recording the exponent of each operand's constant. "
+         "z3 proves on every path: net stoichiometry = the integer combination, every listed coefficient > 0, netted form after +/-, "
+         "constant = product K_i^n_i. eliminate/cancel on solver-forked coefficient values |c| <= 6 (bounded exhaustive); as_reactions "
+         "kb = kf/(K c0^dnu) on reals",
+    note="stubs: chempy.chemistry.int -> identity on integer symbols; multiplier 0 / combinations netting to nothing raise ValueError "
+         "(accepted, outside the quantifier); operands without inactive parts; chains of <= 3 operations (thorough 4)",
+    technique=Z, ref="DESIGN.md section 5 C11")
+
 NA = {
     "C09": "property is about float conversion factors produced inside the 'quantities' package and numpy array helpers; no symbolic "
            "value survives to_unitless (float(result)), and symbolic magnitudes alone would only re-prove linearity (DESIGN.md section 6)",
